@@ -20,6 +20,8 @@ MODULES = [
     ('', 'sub', 'pkg', True),
     ('def __main__(): pass\n', 'deep', 'pkg.sub', False),
     ('', '__main__', None, False),
+    ('def mod(): pass\nclass pkg: pass\n', 'pkg', 'pkg', False),     # pkg.pkg, pkg.pkg.mod, pkg.pkg.pkg: names that are other objects' full names
+    ('_p = 1\n', 'Cls', None, False),
 ]
 
 LEVEL = {model.PrivacyClass.HIDDEN: 0, model.PrivacyClass.PRIVATE: 1, model.PrivacyClass.PUBLIC: 2}
